@@ -14,7 +14,7 @@ import TdModel.Model.C02
 namespace TdModel.C02
 open TdModel.C01 TdModel.C02Core
 
-/-- The apply callbacks dispatch the whole batch the box hands them, then persist. -/
+/-- The apply callbacks dispatch the batch the box hands them, then persist. -/
 theorem apply_callbacks_dispatch_then_store (k : SeqKey) : applyCallsOf orders k = [.dispatch, .store] := by
   by_cases h0 : k = 0
   · subst h0; decide
@@ -23,6 +23,25 @@ theorem apply_callbacks_dispatch_then_store (k : SeqKey) : applyCallsOf orders k
     · unfold applyCallsOf
       rw [if_neg h0, if_neg h1]
       decide
+
+/-- The statement that skips an `affectedPts` marker in the conversion loops of
+`internalState.applyPts` and `channelState.applyPts` is `continue` (regenerated from the AST). -/
+theorem marker_skip_is_continue :
+    Facts.C02.applyPtsSkip = 0 ∧ Facts.C02.chApplyPtsSkip = 0 ∧
+    orders.applyPtsBreak = false ∧ orders.chApplyPtsBreak = false := by decide
+
+theorem apply_callbacks_good (mk : Nat → Bool) (k : SeqKey) : GoodCfg (applyCfgOf orders mk k) := by
+  refine ⟨apply_callbacks_dispatch_then_store k, ?_⟩
+  show (if k = 0 then orders.applyPtsBreak else if k = 1 then false else orders.chApplyPtsBreak) = false
+  rw [marker_skip_is_continue.2.2.1, marker_skip_is_continue.2.2.2]
+  split
+  · rfl
+  · split <;> rfl
+
+/-- **Every non-marker update of an applied batch is handed to the handler**, and nothing else. -/
+theorem applied_batch_dispatches_every_non_marker (mk : Nat → Bool) (k : SeqKey) (us : List Upd) (i : Nat) :
+    i ∈ batchIds (applyCfgOf orders mk k) us ↔ (∃ u ∈ us, u.tag = i) ∧ mk i = false :=
+  mem_batchIds _ (apply_callbacks_good mk k).cont us i
 
 /-- A fetched difference dispatches what it carries and then sets the position, for the pts and
 qts sequences (difference and slice) and for a channel; empty differences persist no pts/qts. -/
@@ -48,35 +67,39 @@ theorem splitDiffUpdates_src : Facts.C02.splitDiffUpdatesSrc =
 theorem isCommonSeqUpdate_src : Facts.C02.isCommonSeqUpdateSrc =
     "{ _, _, isPts := tg.IsPtsUpdate(u) _, isQts := tg.IsQtsUpdate(u) return isPts || isQts }" := rfl
 
-/-- **Recovery completes.** For any sequence `k`, any tiled log, any start position `lo`, and any
-well-formed op list (arbitrary pushes of log entries — loss, duplication, reordering — gap clears,
-honest differences in one piece or sliced) that ends at or above every log position (a completed
-recovery): every log entry above `lo` has been dispatched, unless too-long was reported. -/
-theorem C02_recovery_complete (k : SeqKey) (log : List Entry) (c0 lo : Int) (hc0 : 0 ≤ c0)
+/-- **Recovery completes.** For any sequence `k`, any marker predicate, any tiled log (markers
+included), any start position `lo`, and any well-formed op list (arbitrary pushes of log entries —
+loss, duplication, reordering, affected results early/late/never — gap clears, honest differences
+in one piece or sliced) that ends at or above every log position (a completed recovery): every
+non-marker log entry above `lo` has been dispatched, unless too-long was reported. -/
+theorem C02_recovery_complete (k : SeqKey) (mk : Nat → Bool) (log : List Entry) (c0 lo : Int) (hc0 : 0 ≤ c0)
     (ht : tiled c0 log = true) (ops : List SOp)
-    (hw : wfRun (applyCallsOf orders k) log { state := lo } ops = true)
-    (hrec : ∀ e ∈ log, e.pos ≤ (srun (applyCallsOf orders k) { state := lo } ops).1.state) :
-    complete log lo (srun (applyCallsOf orders k) { state := lo } ops).2 = true := by
-  rw [apply_callbacks_dispatch_then_store] at hw hrec ⊢
-  have hinv := (srun_inv log c0 lo hc0 ht ops _ _ _ (inv_init log lo) hw).2
+    (hw : wfRun (applyCfgOf orders mk k) log { state := lo } ops = true)
+    (hrec : ∀ e ∈ log, e.pos ≤ (srun (applyCfgOf orders mk k) { state := lo } ops).1.state) :
+    complete log mk lo (srun (applyCfgOf orders mk k) { state := lo } ops).2 = true := by
+  have hinv := (srun_inv log (applyCfgOf orders mk k) (apply_callbacks_good mk k) c0 lo hc0 ht ops _ _ _
+    (inv_init log mk lo) hw).2
   unfold complete
   rw [complete_iff]
   rcases hinv.cov with h | h
   · left; rw [accTl_eq] at h; simpa using h
   · right
     intro e he hlo
-    rcases (mem_accD _ [] e.id).1 (h e he hlo (hrec e he)) with h' | h'
-    · exact h'
-    · simp at h'
+    rcases h e he hlo (hrec e he) with h' | h'
+    · exact Or.inl h'
+    · rcases (mem_accD _ [] e.id).1 h' with h'' | h''
+      · exact Or.inr h''
+      · simp at h''
 
 /-- A final difference up to position `x` is such a recovery when `x` is at or above every log
 position. -/
-theorem C02_final_difference_recovers (k : SeqKey) (log : List Entry) (c0 lo : Int) (hc0 : 0 ≤ c0)
-    (ht : tiled c0 log = true) (ops : List SOp) (x : Int) (direct : List Entry)
-    (hw : wfRun (applyCallsOf orders k) log { state := lo } (ops ++ [.seq diffShape x direct]) = true)
+theorem C02_final_difference_recovers (k : SeqKey) (mk : Nat → Bool) (log : List Entry) (c0 lo : Int)
+    (hc0 : 0 ≤ c0) (ht : tiled c0 log = true) (ops : List SOp) (x : Int) (direct : List Entry)
+    (hw : wfRun (applyCfgOf orders mk k) log { state := lo } (ops ++ [.seq diffShape x direct]) = true)
     (hx : ∀ e ∈ log, e.pos ≤ x) :
-    complete log lo (srun (applyCallsOf orders k) { state := lo } (ops ++ [.seq diffShape x direct])).2 = true := by
-  apply C02_recovery_complete k log c0 lo hc0 ht _ hw
+    complete log mk lo
+      (srun (applyCfgOf orders mk k) { state := lo } (ops ++ [.seq diffShape x direct])).2 = true := by
+  apply C02_recovery_complete k mk log c0 lo hc0 ht _ hw
   intro e he
   rw [srun_append]
   simp only [srun, sstep, diffShape]
@@ -87,9 +110,18 @@ one difference carrying message 1 @11 and delete 2 @12 — the delete is never d
 the position reaches 12. -/
 theorem C02_rerouted_other_update_counterexample :
     let log : List Entry := [⟨1, .msg, 0, 11, 1⟩, ⟨2, .other, 0, 12, 1⟩]
-    complete log 10
-      (srun [.dispatch, .store] { state := 10 }
+    complete log (fun _ => false) 10
+      (srun ⟨[.dispatch, .store], false, fun _ => false⟩ { state := 10 }
         [.clear, .push ⟨2, .other, 0, 12, 1⟩, .seq diffShape 12 [⟨1, .msg, 0, 11, 1⟩]]).2 = false := by decide
+
+/-- With `break` instead of `continue` in the marker skip: channel at 5, affected result 1 covering
+position 6 is overtaken by messages 2 @7 and 3 @8; when it arrives the batch [marker, 2, 3] is
+applied, the position reaches 8, and neither message was ever dispatched. -/
+theorem C02_marker_break_counterexample :
+    let log : List Entry := [⟨1, .chaff, 5, 6, 1⟩, ⟨2, .chmsg, 5, 7, 1⟩, ⟨3, .chmsg, 5, 8, 1⟩]
+    let r := srun ⟨[.dispatch, .store], true, fun i => i == 1⟩ { state := 5 }
+        [.push ⟨2, .chmsg, 5, 7, 1⟩, .push ⟨3, .chmsg, 5, 8, 1⟩, .push ⟨1, .chaff, 5, 6, 1⟩]
+    r.1.state = 8 ∧ complete log (fun i => i == 1) 5 r.2 = false := by decide
 
 /-! ### Non-vacuity -/
 
@@ -101,8 +133,15 @@ def exOps : List SOp :=
    .seq diffShape 14 [⟨3, .msg, 0, 14, 1⟩], .clear, .seq diffShape 15 [⟨4, .msg, 0, 15, 1⟩]]
 
 example : tiled 10 exLog = true := by decide
-example : wfRun [.dispatch, .store] exLog { state := 10 } exOps = true := by decide
-example : dispatchedIds (srun [.dispatch, .store] { state := 10 } exOps).2 = [1, 2, 3, 4] := by decide
+def exCfg : ACfg := ⟨[.dispatch, .store], false, fun _ => false⟩
+example : wfRun exCfg exLog { state := 10 } exOps = true := by decide
+example : dispatchedIds (srun exCfg { state := 10 } exOps).2 = [1, 2, 3, 4] := by decide
+
+/-- The affected-marker history with the regenerated callback of a channel: both overtaking messages
+are dispatched when the marker closes the hole. -/
+example : (srun (applyCfgOf orders (fun i => i == 1) 7) { state := 5 }
+    [.push ⟨2, .chmsg, 5, 7, 1⟩, .push ⟨3, .chmsg, 5, 8, 1⟩, .push ⟨1, .chaff, 5, 6, 1⟩]).2 =
+    [.dispatch [2, 3], .store 8] := by decide
 
 /-! ### The whole manager model on the two D11 histories -/
 
